@@ -1999,13 +1999,42 @@ def promote_wrap(node):
 ######################################################################
 
 
+# Fields of the library and of a declaration which must have a fixed type.
+yaml_field_types = [
+    ("library", str, "a string"),
+    ("cxx_header", str, "a string"),
+    ("namespace", str, "a string"),
+    ("language", str, "a string"),
+    ("decl", str, "a string"),
+    ("options", dict, "a dictionary"),
+    ("format", dict, "a dictionary"),
+    ("attrs", dict, "a dictionary"),
+    ("fattrs", dict, "a dictionary"),
+    ("splicer", dict, "a dictionary"),
+    ("fstatements", dict, "a dictionary"),
+    ("copyright", list, "a list"),
+    ("declarations", list, "a list"),
+    ("typemap", list, "a list"),
+]
+
 def clean_dictionary(ddct):
     """YAML converts some blank fields to None,
     but we want blank.
+    Check the type of the fields.
     """
     for key in ["cxx_header", "namespace"]:
         if key in ddct and ddct[key] is None:
             ddct[key] = ""
+
+    for key, typ, what in yaml_field_types:
+        if key not in ddct:
+            continue
+        if key in ["declarations", "options"] and ddct[key] is None:
+            continue  # blank
+        if not isinstance(ddct[key], typ):
+            raise RuntimeError(
+                "{} must be {} around line {}".format(
+                    key, what, ddct.get("__line__", "?")))
 
     if "default_arg_suffix" in ddct:
         default_arg_suffix = ddct["default_arg_suffix"]
@@ -2159,8 +2188,16 @@ def add_declarations(parent, node):
         return
     if not node["declarations"]:
         return
+    if not hasattr(parent, "add_declaration"):
+        raise RuntimeError(
+            "declarations may only be nested in a block, class, namespace "
+            "or struct around line {}".format(node.get("__line__", "?")))
 
     for subnode in node["declarations"]:
+        if not isinstance(subnode, dict):
+            raise RuntimeError(
+                "declarations must be a list of dictionaries around line {}"
+                .format(node.get("__line__", "?")))
         if "block" in subnode:
             dct = copy.copy(subnode)
             clean_dictionary(dct)
@@ -2210,15 +2247,21 @@ def create_library_from_dictionary(node):
     Every class must have a name.
     """
 
+    clean_dictionary(node)
     if "copyright" in node:
         clean_list(node["copyright"])
 
-    clean_dictionary(node)
     library = LibraryNode(**node)
 
     if "typemap" in node:
         # list of dictionaries
         for subnode in node["typemap"]:
+            if (not isinstance(subnode, dict) or
+                    "type" not in subnode or
+                    not isinstance(subnode.get("fields"), dict)):
+                raise RuntimeError(
+                    "typemap must be a list of dictionaries with "
+                    "'type' and 'fields'")
             # Update fields for a type. For example, set cpp_if
             key = subnode["type"]
             fields = subnode["fields"]
